@@ -22,7 +22,7 @@
 From Coq Require Import List NArith Arith Bool Lia String.
 From GV Require Import Base.Ints Gen.Math Gen.Kernel Model.Mirror
   Proofs.Thresholds Proofs.MirrorAuth Proofs.MirrorNoop Proofs.MirrorChain Proofs.MirrorCert
-  Proofs.MirrorTotal Proofs.MirrorRestart Proofs.MirrorResumeLoad.
+  Proofs.MirrorTotal Proofs.MirrorRestart Proofs.MirrorResumeLoad Proofs.MirrorResumeRT.
 Import ListNotations.
 Local Open Scope N_scope.
 
@@ -64,8 +64,40 @@ Definition comvals (ih : N) (ivs : valset) (s : kstate) : Prop :=
   | Some _ => v_vals (k_com s) = chain_vals ih ivs (st_hdrs s) (v_h (k_com s))
   end.
 (** every proposed header of the voting / next-round view announces a next set with keys *)
-Definition kok (s : kstate) : Prop :=
+Definition kok0 (s : kstate) : Prop :=
   forall p, In p (v_phs (k_vot s)) \/ In p (v_phs (k_nxt s)) -> vs_keys (hd_next (ph_hdr p)) <> [].
+
+(** view / round-store correspondence: the votes a view holds are, up to signer sets, what
+    loading its round-store cell gives (or the view holds none); its proposed headers are in the
+    cell (by hash) or among the replayed headers; its proof maps have distinct targets and
+    proofs without repeated signatures; its summary names the most voted block of its precommits *)
+Definition vrel (kind : N) (v : view) (c : option sparse_coll) : Prop :=
+  view_votes kind v = [] \/
+  exists pkh entries pm', c = Some (pkh, entries) /\
+    to_full_entries kind (v_h v) (v_r v) (vs_keys (v_vals v)) entries = Ok pm' /\ pmeq pm' (view_votes kind v).
+Definition votes_wf (pm : pmap) : Prop := keys_nodup pm /\ nd_pmap pm.
+Definition phs_corr (rs : list (N * N * rentry)) (rp : list hdr) (v : view) : Prop :=
+  forall p, In p (v_phs v) ->
+    (exists q, In q (re_phs (rs_entry rs (v_h v) (v_r v))) /\ hd_hash (ph_hdr q) = hd_hash (ph_hdr p)) \/
+    (exists x, In x rp /\ hd_height x = v_h v /\ hd_hash x = hd_hash (ph_hdr p)).
+Definition mpc_ok (v : view) : Prop := sm_mpc (v_sum v) = snd (set_powers (vs_pows (v_vals v)) (v_pc v)).
+Definition yview (rs : list (N * N * rentry)) (rp : list hdr) (v : view) : Prop :=
+  votes_wf (v_pv v) /\ votes_wf (v_pc v) /\ mpc_ok v /\
+  vrel KPrevote v (re_pv (rs_entry rs (v_h v) (v_r v))) /\
+  vrel KPrecommit v (re_pc (rs_entry rs (v_h v) (v_r v))) /\
+  phs_corr rs rp v.
+Definition Y (s : kstate) : Prop :=
+  yview (st_rounds s) (st_replayed s) (k_vot s) /\ yview (st_rounds s) (st_replayed s) (k_nxt s).
+
+Definition kok (s : kstate) : Prop := kok0 s /\ Y s.
+
+(** the voting / next-round view of [s] is exactly what loading the round store gives *)
+Definition loadedview (rs : list (N * N * rentry)) (rp : list hdr) (v : view) : Prop :=
+  to_full_map KPrevote (v_h v) (v_r v) (vs_keys (v_vals v)) (re_pv (rs_entry rs (v_h v) (v_r v))) = Ok (v_pv v) /\
+  to_full_map KPrecommit (v_h v) (v_r v) (vs_keys (v_vals v)) (re_pc (rs_entry rs (v_h v) (v_r v))) = Ok (v_pc v) /\
+  v_phs v = round_phs rs rp (v_h v) (v_r v).
+Definition loadedv (s : kstate) : Prop :=
+  loadedview (st_rounds s) (st_replayed s) (k_vot s) /\ loadedview (st_rounds s) (st_replayed s) (k_nxt s).
 Definition ne_view (v : view) : Prop := ne_pmap (v_pv v) /\ ne_pmap (v_pc v).
 Definition ne_state (s : kstate) : Prop := ne_view (k_com s) /\ ne_view (k_vot s) /\ ne_view (k_nxt s).
 Definition n1_view (rs : list (N * N * rentry)) (v : view) : Prop :=
@@ -158,6 +190,94 @@ Proof.
   rewrite E1, E2. cbn [bind]. eexists. reflexivity.
 Qed.
 
+Lemma to_full_map_wf kind h r keys c pm : to_full_map kind h r keys c = Ok pm ->
+  votes_wf pm /\
+  (pm = [] \/ exists pkh entries, c = Some (pkh, entries) /\ to_full_entries kind h r keys entries = Ok pm).
+Proof.
+  unfold to_full_map. destruct c as [[pkh entries]|].
+  - intros E. assert (E' : to_full_entries kind h r keys entries = Ok pm).
+    { destruct keys; [destruct entries; [exact E|discriminate]|exact E]. }
+    split; [apply (to_full_entries_keys_nodup _ _ _ _ _ _ E')|]. right. exists pkh, entries. split; [reflexivity|exact E'].
+  - intros E; inversion E; subst. split; [split; [constructor|intros t p []]|left; reflexivity].
+Qed.
+
+Lemma load_loadedview rs rp h r vs v cp :
+  load_initial_view_r rs rp h r vs = Ok v -> loadedview rs rp (bump (with_pcp v cp)).
+Proof.
+  unfold load_initial_view_r, bind.
+  destruct (to_full_map KPrevote h r (vs_keys vs) _) as [pv|] eqn:Hpv; [|discriminate].
+  destruct (to_full_map KPrecommit h r (vs_keys vs) _) as [pc|] eqn:Hpc; [|discriminate].
+  intros E; inversion E; subst. clear E. unfold loadedview.
+  cbn [bump with_pcp v_h v_r v_vals v_phs v_pv v_pc]. repeat split; assumption.
+Qed.
+
+Lemma load_yview rs rp h r vs v cp :
+  load_initial_view_r rs rp h r vs = Ok v -> yview rs rp (bump (with_pcp v cp)).
+Proof.
+  unfold load_initial_view_r, bind.
+  destruct (to_full_map KPrevote h r (vs_keys vs) _) as [pv|] eqn:Hpv; [|discriminate].
+  destruct (to_full_map KPrecommit h r (vs_keys vs) _) as [pc|] eqn:Hpc; [|discriminate].
+  intros E; inversion E; subst. clear E.
+  destruct (to_full_map_wf _ _ _ _ _ _ Hpv) as [W1 R1]. destruct (to_full_map_wf _ _ _ _ _ _ Hpc) as [W2 R2].
+  unfold yview, mpc_ok, vrel, phs_corr. cbn [bump with_pcp v_h v_r v_vals v_phs v_pv v_pc v_sum view_votes N.eqb KPrevote KPrecommit Pos.eqb].
+  split; [exact W1|]. split; [exact W2|]. split.
+  { unfold sum_set_precommits. destruct (set_powers (vs_pows vs) pc) as [[t b] m]. reflexivity. }
+  split.
+  { destruct R1 as [->|(pkh&en&Ec&Et)]; [left; reflexivity|right]. exists pkh, en, pv. split; [exact Ec|]. split; [exact Et|apply pmeq_refl]. }
+  split.
+  { destruct R2 as [->|(pkh&en&Ec&Et)]; [left; reflexivity|right]. exists pkh, en, pc. split; [exact Ec|]. split; [exact Et|apply pmeq_refl]. }
+  intros p Hp. destruct (round_phs_in _ _ _ _ _ Hp) as [Hin|(x&Hx&Hh&->)].
+  - left. exists p. split; [exact Hin|reflexivity].
+  - right. exists x. split; [exact Hx|]. split; [exact Hh|reflexivity].
+Qed.
+
+(** ** Frame lemmas for [yview] *)
+Lemma yview_mono rs rp rs' rp' v :
+  re_pv (rs_entry rs' (v_h v) (v_r v)) = re_pv (rs_entry rs (v_h v) (v_r v)) ->
+  re_pc (rs_entry rs' (v_h v) (v_r v)) = re_pc (rs_entry rs (v_h v) (v_r v)) ->
+  incl (re_phs (rs_entry rs (v_h v) (v_r v))) (re_phs (rs_entry rs' (v_h v) (v_r v))) ->
+  incl rp rp' ->
+  yview rs rp v -> yview rs' rp' v.
+Proof.
+  intros E1 E2 I1 I2 (A&B&C&D&E&F). unfold yview. rewrite E1, E2.
+  split; [exact A|]. split; [exact B|]. split; [exact C|]. split; [exact D|]. split; [exact E|].
+  intros p Hp. destruct (F p Hp) as [(q&Hq&Eq)|(x&Hx&Ex)].
+  - left. exists q. split; [apply I1; exact Hq|exact Eq].
+  - right. exists x. split; [apply I2; exact Hx|exact Ex].
+Qed.
+
+Lemma yview_view rs rp v v' :
+  v_h v' = v_h v -> v_r v' = v_r v -> v_vals v' = v_vals v -> v_pv v' = v_pv v -> v_pc v' = v_pc v ->
+  sm_mpc (v_sum v') = sm_mpc (v_sum v) -> incl (v_phs v') (v_phs v) ->
+  yview rs rp v -> yview rs rp v'.
+Proof.
+  intros E1 E2 E3 E4 E5 E6 I (A&B&C&D&E&F). unfold yview, mpc_ok, vrel, view_votes, phs_corr in *.
+  cbn [N.eqb KPrevote KPrecommit Pos.eqb] in *. rewrite E1, E2, E3, E4, E5, E6.
+  split; [exact A|]. split; [exact B|]. split; [exact C|]. split; [exact D|]. split; [exact E|].
+  intros p Hp. apply F. apply I. exact Hp.
+Qed.
+
+Lemma yview_bump rs rp v : yview rs rp v -> yview rs rp (bump v).
+Proof. apply yview_view; try reflexivity. intros p H; exact H. Qed.
+
+Lemma yview_fresh rs rp h r vs pcp sm ver : sm_mpc sm = [] -> yview rs rp (mk_view h r vs [] [] [] pcp sm ver).
+Proof.
+  intros E. unfold yview, mpc_ok, vrel, phs_corr, votes_wf. cbn [v_pv v_pc v_sum v_phs view_votes N.eqb KPrevote KPrecommit Pos.eqb v_vals].
+  split; [split; [constructor|intros t p []]|]. split; [split; [constructor|intros t p []]|].
+  split; [rewrite E; reflexivity|]. split; [left; reflexivity|]. split; [left; reflexivity|]. intros p [].
+Qed.
+
+(** the cell written for a view's votes corresponds to them (round trip) *)
+Lemma vrel_written kind v pkh :
+  auth_pmap (vs_keys (v_vals v)) kind (v_h v) (v_r v) (view_votes kind v) ->
+  ne_pmap (view_votes kind v) -> nd_pmap (view_votes kind v) ->
+  vrel kind v (Some (map_to_sparse pkh (view_votes kind v))).
+Proof.
+  intros Ha Hn Hd. right.
+  destruct (roundtrip kind (v_h v) (v_r v) (vs_keys (v_vals v)) (view_votes kind v) Ha Hn Hd) as (pm'&E&Hm).
+  unfold map_to_sparse. eexists; eexists; exists pm'. split; [reflexivity|]. split; [exact E|exact Hm].
+Qed.
+
 (** a view loaded from the store, with its previous commit proof attached *)
 Definition dressed (v0 : view) (cp : cproof) : view := bump (with_pcp v0 cp).
 
@@ -223,7 +343,7 @@ Lemma loaded_state_ok com chdr vot0 nxt0 cpv :
   end ->
   let s0 := mk_k ih ivs com (dressed vot0 cpv) (dressed nxt0 cpv) chdr (sr_nhr st) (sr_hdrs st) (sr_rounds st)
                  (sr_replayed st) vals log evs in
-  INV ih ivs s0 /\ tinv s0 /\ comvals ih ivs s0 /\ ne_state s0 /\ n1 s0 /\ kok s0.
+  INV ih ivs s0 /\ tinv s0 /\ comvals ih ivs s0 /\ ne_state s0 /\ n1 s0 /\ kok s0 /\ loadedv s0.
 Proof.
   intros Lv Ln Hvs Hch Hcr Hca Hcne Hexp Hshape s0. subst s0.
   destruct (load_facts _ _ _ _ _ _ Lv) as (V1&V2&V3&V4&V5&V6&V7&V8).
@@ -284,8 +404,14 @@ Proof.
   { unfold n1, n1_view. proj. rewrite V1, V2, N1, N2. split; intros Hne.
     - eapply to_full_map_nonempty_stored; [exact V8|exact Hne].
     - eapply to_full_map_nonempty_stored; [exact N8|exact Hne]. }
-  unfold kok. proj. intros p Hp.
-  destruct (Hgoodp p Hp) as (_&_&_&(_&_&_&F7)&_). exact F7.
+  split.
+  { split.
+    - unfold kok0. proj. intros p Hp.
+      destruct (Hgoodp p Hp) as (_&_&_&(_&_&_&F7)&_). exact F7.
+    - unfold Y. cbn [st_rounds st_replayed k_vot k_nxt]. unfold dressed.
+      split; eapply load_yview; eassumption. }
+  unfold loadedv. cbn [st_rounds st_replayed k_vot k_nxt]. unfold dressed.
+  split; eapply load_loadedview; eassumption.
 Qed.
 
 End Loaded.
